@@ -152,6 +152,7 @@ pub struct Prepared {
     pub post: MBucket,
     pub n_writes: u64,
     pub n_fsyncs: u64,
+    pub n_mmaps: u64,
     pub base_len: u64,
 }
 
@@ -177,7 +178,7 @@ pub fn prepare(t: &Target, path: &std::path::Path, vio: &Vio) -> Result<Prepared
         return Err(crate::report::workload_failure(run.out.violations.first(), "target transaction was cut short without any fault"));
     }
     drop(db);
-    Ok(Prepared { base_len: image.len() as u64, image, pre, post, n_writes: s.writes, n_fsyncs: s.fsyncs })
+    Ok(Prepared { base_len: image.len() as u64, image, pre, post, n_writes: s.writes, n_fsyncs: s.fsyncs, n_mmaps: s.mmaps })
 }
 
 fn set_fsize_limit(limit: Option<u64>) {
@@ -220,7 +221,7 @@ pub fn inject(t: &Target, p: &Prepared, f: &Fault, path: &std::path::Path, vio: 
     run.tolerate_commit_err = true;
     let mut m = p.pre.clone();
     st.injected += 1;
-    let phase = format!("{}#{}{}{}", f.class, f.nth, match f.kind { 1 => ":short", 2 => ":from-here-on", _ => "" }, if f.short_len > 0 { format!("({}B)", f.short_len) } else { String::new() });
+    let phase = format!("{}#{}{}{}", f.class, f.nth, match f.kind { 1 => ":short", 2 => ":from-here-on", 3 => ":short-then-success", _ => "" }, if f.short_len > 0 { format!("({}B)", f.short_len) } else { String::new() });
     let arm = |f: &Fault| match f.class.as_str() {
         "write" => {
             vio.arm(vio::CLASS_WRITE, f.nth, f.errno, f.kind);
@@ -232,6 +233,7 @@ pub fn inject(t: &Target, p: &Prepared, f: &Fault, path: &std::path::Path, vio: 
             vio.below(2 * ps as i64);
         }
         "fsync" => vio.arm(vio::CLASS_FSYNC, f.nth, f.errno, f.kind),
+        "mmap" => vio.arm(vio::CLASS_MMAP, f.nth, f.errno, 0),
         _ => {}
     };
     // an older reader, held across the failing commit and everything that follows (pre-sized files only)
@@ -264,7 +266,8 @@ pub fn inject(t: &Target, p: &Prepared, f: &Fault, path: &std::path::Path, vio: 
     }
     let r = util::catch(|| exec::exec_tx(&mut run, &db, path, &t.tx, 0, &mut m));
     set_fsize_limit(None);
-    let fired = vio.stats().fired > 0 || f.class == "rlimit";
+    let vio_fired = vio.stats().fired > 0;
+    let fired = vio_fired || f.class == "rlimit";
     vio.reset();
     if let Err(pn) = r {
         return Ok(Some((
@@ -283,6 +286,14 @@ pub fn inject(t: &Target, p: &Prepared, f: &Fault, path: &std::path::Path, vio: 
         st.commit_ok += 1;
     } else {
         st.commit_err += 1;
+    }
+    // "If a write, a file extension or a sync fails during commit, commit returns an error": a call of the
+    // commit itself was made to fail by the shim (it reports how many armed faults fired) and commit said Ok
+    if commit_ok && f.class != "rlimit" && f.kind != 3 && vio_fired {
+        return Ok(Some((
+            "after-fault:commit-ok-although-a-call-failed".into(),
+            format!("[{}] fault {}: the {} call was failed by the shim and commit() still returned Ok", t.label, phase, f.class),
+        )));
     }
     // ---- what does the same handle show now?
     let view = util::catch(|| -> Result<MBucket, String> {
@@ -446,6 +457,21 @@ pub fn faults_for(p: &Prepared, growing: bool, thorough: bool) -> Vec<Fault> {
         v.push(f("write", i, libc::EIO, 1));
         if thorough || i % 3 == 0 {
             v.push(f("write", i, libc::EIO, 2));
+        }
+    }
+    for i in 0..p.n_writes as i64 {
+        // a short count that is NOT followed by an error: the caller must write the rest itself
+        v.push(f("write", i, libc::EIO, 3));
+        if i % 2 == 0 {
+            let mut x = f("write", i, libc::EIO, 3);
+            x.short_len = 100;
+            v.push(x);
+        }
+    }
+    if growing {
+        // the file was extended but mapping it again fails
+        for i in 0..p.n_mmaps as i64 {
+            v.push(f("mmap", i, libc::ENOMEM, 0));
         }
     }
     for i in 0..p.n_fsyncs as i64 {
